@@ -180,6 +180,29 @@ Definition f64_of_bits (z0 : Z) : f64 :=
     | _ => S754_nan (* unreachable *)
     end.
 
+(* ---- division with a short quotient ----
+   Z.div_eucl is a bit-serial long division over the whole dividend, quadratic
+   when both operands are large.  When the quotient is short (the usual case
+   here: ~60 bits out of 1000-bit operands) the leading steps only copy the
+   dividend into the remainder, so we start from the top lb bits of a directly
+   and run the long division over the remaining s low bits only. *)
+Fixpoint fde_loop (fuel : nat) (i : Z) (a b q r : Z) : Z * Z :=
+  match fuel with
+  | O => (q, r)
+  | S f =>
+      let r1 := 2 * r + (if Z.testbit a i then 1 else 0) in
+      if b <=? r1 then fde_loop f (i - 1) a b (2 * q + 1) (r1 - b)
+      else fde_loop f (i - 1) a b (2 * q) r1
+  end.
+
+(* = Z.div_eucl a b for a >= 0, b > 0 *)
+Definition Zfast_div_eucl (a b : Z) : Z * Z :=
+  if (a <=? 0) || (b <=? 0) then Z.div_eucl a b else
+  let s := Z.log2 a - Z.log2 b + 1 in
+  if s <=? 0 then (0, a)
+  else if 160 <? s then Z.div_eucl a b
+  else fde_loop (Z.to_nat s) (s - 1) a b 0 (Z.shiftr a s).
+
 (* ---- correctly rounded rationals and decimals ---- *)
 Definition loc_of_rem (r d : Z) : location :=
   if r =? 0 then loc_Exact else loc_Inexact (Z.compare (2 * r) d).
@@ -188,7 +211,7 @@ Definition loc_of_rem (r d : Z) : location :=
 Definition f64_of_ratio (s : bool) (n d : Z) : f64 :=
   if n <=? 0 then S754_zero s else
   let k := Z.max 0 (66 + Z.log2 d - Z.log2 n) in
-  let (q, r) := Z.div_eucl (n * 2 ^ k) d in
+  let (q, r) := Zfast_div_eucl (n * 2 ^ k) d in
   binary_round_aux 53 1024 s q (- k) (loc_of_rem r d).
 
 (* number of decimal digits of m > 0 *)
@@ -253,4 +276,88 @@ Qed.
 Lemma f64_neg_involutive : forall a, f64_neg (f64_neg a) = a.
 Proof.
   intros [s|s| |s m e]; cbn [f64_neg SFopp]; rewrite ?negb_involutive; reflexivity.
+Qed.
+
+(* ---- bit-pattern round trip ---- *)
+Lemma digits2_pos_size : forall p, digits2_pos p = Pos.size p.
+Proof. induction p; simpl; congruence. Qed.
+
+Lemma digits2_bounds : forall m,
+  2 ^ (Zpos (digits2_pos m) - 1) <= Zpos m < 2 ^ Zpos (digits2_pos m).
+Proof.
+  intros m. rewrite digits2_pos_size.
+  pose proof (Pos.size_gt m) as Hgt. pose proof (Pos.size_le m) as Hle.
+  assert (Hp : Zpos (2 ^ Pos.size m) = 2 ^ Zpos (Pos.size m)) by apply Pos2Z.inj_pow.
+  split.
+  - assert (2 ^ Zpos (Pos.size m) <= 2 * Zpos m).
+    { rewrite <- Hp. change (2 * Zpos m) with (Zpos m~0). exact Hle. }
+    replace (Zpos (Pos.size m)) with (Zpos (Pos.size m) - 1 + 1) in H by lia.
+    rewrite Z.pow_add_r in H by lia. lia.
+  - rewrite <- Hp. exact Hgt.
+Qed.
+
+Local Ltac zdm := Z.to_euclidean_division_equations; lia.
+
+Lemma bits_fields : forall (s : bool) (be frac : Z),
+  0 <= be < 2048 -> 0 <= frac < 4503599627370496 ->
+  let z := (if s then 9223372036854775808 else 0) + (be * 4503599627370496 + frac) in
+  z mod 18446744073709551616 = z /\
+  (9223372036854775808 <=? z) = s /\
+  (z / 4503599627370496) mod 2048 = be /\
+  z mod 4503599627370496 = frac.
+Proof.
+  intros s be frac Hbe Hfrac z.
+  assert (Hz : 0 <= z < 18446744073709551616) by (subst z; destruct s; lia).
+  repeat split.
+  - apply Z.mod_small; exact Hz.
+  - subst z; destruct s; [apply Z.leb_le | apply Z.leb_gt]; lia.
+  - subst z; destruct s; zdm.
+  - subst z; destruct s; zdm.
+Qed.
+
+Lemma f64_of_bits_to_bits : forall f,
+  valid_f64 f = true -> f64_of_bits (f64_to_bits f) = f.
+Proof.
+  intros [s|s| |s m e] Hv.
+  - destruct s; vm_compute; reflexivity.
+  - destruct s; vm_compute; reflexivity.
+  - vm_compute; reflexivity.
+  - unfold valid_f64, valid_binary, bounded, canonical_mantissa, fexp, emin in Hv.
+    apply andb_true_iff in Hv. destruct Hv as [Hc He].
+    apply Zeq_bool_eq in Hc. apply Zle_bool_imp_le in He.
+    pose proof (digits2_bounds m) as Hd.
+    set (d := Zpos (digits2_pos m)) in *.
+    assert (Hdpos : 0 < d) by (subst d; lia).
+    cbn [f64_to_bits].
+    destruct (4503599627370496 <=? Zpos m) eqn:Hm.
+    + apply Z.leb_le in Hm.
+      assert (Hd53 : d = 53).
+      { destruct (Z_lt_le_dec d 53) as [Hlt|Hge].
+        - exfalso.
+          assert (2 ^ d <= 2 ^ 52) by (apply Z.pow_le_mono_r; lia).
+          change (2 ^ 52) with 4503599627370496 in H. lia.
+        - lia. }
+      rewrite Hd53 in Hd. change (2 ^ (53 - 1)) with 4503599627370496 in Hd.
+      change (2 ^ 53) with 9007199254740992 in Hd.
+      assert (Hel : -1074 <= e <= 971) by lia.
+      pose proof (bits_fields s (e + 1075) (Zpos m - 4503599627370496)
+                    ltac:(lia) ltac:(lia)) as Hf.
+      cbv zeta in Hf. destruct Hf as (H1 & H2 & H3 & H4).
+      unfold f64_of_bits. rewrite H1, H2, H3, H4.
+      replace (e + 1075 =? 2047) with false by (symmetry; apply Z.eqb_neq; lia).
+      replace (e + 1075 =? 0) with false by (symmetry; apply Z.eqb_neq; lia).
+      replace (Zpos m - 4503599627370496 + 4503599627370496) with (Zpos m) by lia.
+      replace (e + 1075 - 1075) with e by lia. reflexivity.
+    + apply Z.leb_gt in Hm.
+      assert (Hd52 : d <= 52).
+      { destruct (Z_lt_le_dec 52 d) as [Hlt|Hge]; [exfalso | lia].
+        assert (2 ^ 52 <= 2 ^ (d - 1)) by (apply Z.pow_le_mono_r; lia).
+        change (2 ^ 52) with 4503599627370496 in H. lia. }
+      assert (Hee : e = -1074) by lia. subst e.
+      pose proof (bits_fields s 0 (Zpos m) ltac:(lia) ltac:(lia)) as Hf.
+      cbv zeta in Hf.
+      change (0 * 4503599627370496 + Zpos m) with (Zpos m) in Hf.
+      destruct Hf as (H1 & H2 & H3 & H4).
+      unfold f64_of_bits.
+      rewrite H1, H2, H3, H4. reflexivity.
 Qed.
